@@ -11,7 +11,7 @@ package server
 //@      // ---- the request's own allocation: the one keyed by the 5-tuple the datagram arrived on (C04)
 //@ spec func ownAlloc(req Request) *allocation.Allocation = allocOf(req.AllocationManager, req.SrcAddr, localAddrOf(req.Conn), 0)
 //@ spec func reqWF(req Request) bool = req.Log != nil && req.Conn != nil && req.AllocationManager != nil && req.AllocationManager.allocations != nil
-//@ spec func ownWF(req Request) bool = ownAlloc(req) != nil ==> (allocWF(ownAlloc(req)) && permTimers(ownAlloc(req)) && chanTimers(ownAlloc(req)) && timersDisjoint(ownAlloc(req)))
+//@ spec func ownWF(req Request) bool = ownAlloc(req) != nil ==> (allocWF(ownAlloc(req)) && permTimers(ownAlloc(req)) && chanTimers(ownAlloc(req)) && timersDisjoint(ownAlloc(req)) && chansWF(ownAlloc(req)) && chanPeersNonNil(ownAlloc(req)))
 //@ spec func ownTuple(ft *allocation.FiveTuple, req Request) bool = ft != nil && ft.SrcAddr == req.SrcAddr && ft.DstAddr == localAddrOf(req.Conn) && int(ft.Protocol) == 0
 
 //@ func handleSendIndication
@@ -110,6 +110,7 @@ package server
 //@ func handleChannelBindRequest
 //@   requires reqWF(req) && ownWF(req) && stunMsg != nil && req.NonceHash != nil
 //@   fresh authOK, granted
+//@   opaque allocWF, permTimers, chanTimers, timersDisjoint, chanNumsUnique, chanPeersUnique, chanRange, chansWF, chanPeersNonNil
 //@   at-call buildAndSend assert [C19:correlated] respondsTo(req, stunMsg, arg0, arg1, arg2)
 //@   at-call buildAndSendErr assert [C19:correlated] respondsTo(req, stunMsg, arg0, arg1, arg3)
 //@   at-call buildAndSend assert [C03,C19:success-only-authed] int(typeOf(arg2).Class) == 2 ==> authOK
